@@ -391,12 +391,83 @@ META = {
     "level_text": "Exploration: generated (epochs 0..4, batch size, n_times, optimiser class/instance/default, validation on/off, lazy and materialised models with Dropout, criteria, hedge lists, initial states, seeds); fit() must reproduce an explicit loop bitwise, call zero_grad/step exactly k times in order, change parameters only inside step, and run training/validation forwards in the documented modes.",
 }
 
+
+# ------------------------------------------------------------------ lazy model with an optimiser instance on its still-lazy parameters
+@st.composite
+def lazy_instance_case(draw):
+    return {"steps": draw(st.integers(2, 5)), "epochs": draw(st.integers(1, 3)), "n_paths": draw(st.integers(2, 24)),
+            "opt": draw(st.sampled_from(["sgd", "adam", "rmsprop"])), "validation": draw(st.booleans()),
+            "model": draw(st.sampled_from(["mlp_lazy", "lazylinear"])), "hedge": draw(st.sampled_from(["default", "ul+listed"])),
+            "model_seed": draw(seed_s), "fit_seed": draw(seed_s)}
+
+
+def check_lazy_instance(case, ctx):
+    """fit(optimizer=<instance>) with a lazy model whose parameters the instance was given before they materialised (torch allows
+    it: the parameter objects materialise in place). The protocol is the same: k batches of the requested size, parameters equal
+    to the explicit loop's."""
+    import pfhedge.instruments as I
+    from pfhedge.nn import Hedger, MultiLayerPerceptron
+
+    k, n = case["epochs"], case["n_paths"]
+
+    def make():
+        ul = I.BrownianStock(cost=1e-3)
+        deriv = I.EuropeanOption(ul, maturity=case["steps"] * ul.dt)
+        hedge, H = None, 1
+        if case["hedge"] == "ul+listed":
+            o = I.EuropeanOption(ul, strike=1.05, maturity=deriv.maturity)
+            o.list(PRICERS["tanh"], cost=1e-3)
+            hedge, H = [ul, o], 2
+        torch.manual_seed(case["model_seed"])
+        model = MultiLayerPerceptron(out_features=H, n_layers=1, n_units=3) if case["model"] == "mlp_lazy" else torch.nn.LazyLinear(H)
+        hedger = Hedger(model, ["moneyness", "time_to_maturity", "underlier_spot"])
+        sizes = []
+        orig = ul.simulate
+
+        def logging_simulate(n_paths=1, **kw):
+            sizes.append(n_paths)
+            return orig(n_paths=n_paths, **kw)
+        ul.simulate = logging_simulate
+        base, kw = OPTS[case["opt"]]
+        opt = base(list(hedger.model.parameters()), **kw)  # parameters still uninitialised
+        return ul, deriv, hedge, hedger, opt, sizes
+
+    ul, deriv, hedge, hedger, opt, sizes = make()
+    torch.manual_seed(case["fit_seed"])
+    with ctx.sut("C15/fit"):
+        hedger.fit(deriv, hedge=hedge, n_epochs=k, n_paths=n, optimizer=opt, verbose=False, validation=case["validation"])
+    ul_b, deriv_b, hedge_b, hedger_b, opt_b, sizes_b = make()
+    torch.manual_seed(case["fit_seed"])
+    for _ in range(k):
+        hedger_b.train()
+        opt_b.zero_grad()
+        loss = hedger_b.compute_loss(deriv_b, hedge=hedge_b, n_paths=n)
+        loss.backward()
+        opt_b.step()
+        if case["validation"]:
+            hedger_b.eval()
+            hedger_b.compute_loss(deriv_b, hedge=hedge_b, n_paths=n, enable_grad=False)
+    want_sizes = [n] * (k * (2 if case["validation"] else 1))
+    ctx.check(sizes == want_sizes, "C15/batch-size", f"fit() simulated batches of sizes {sizes}, requested {want_sizes}")
+    pa, pb = [p.detach() for p in hedger.model.parameters()], [p.detach() for p in hedger_b.model.parameters()]
+    same = len(pa) == len(pb) and all(a.shape == b.shape and bool(((a == b) | (a.isnan() & b.isnan())).all()) for a, b in zip(pa, pb))
+    ctx.check(same, "C15/differs-from-explicit-loop",
+              f"lazy model + optimiser instance ({case['opt']}): parameters after fit() differ from the explicit simulate/loss/backward/step loop")
+    ctx.nontrivial(k >= 2)
+    ctx.cls("opt:" + case["opt"], "model:" + case["model"], "validation:" + str(case["validation"]))
+
+
 SUBS = [
     Sub("fit_protocol", check_fit,
         rule="k in 0..4, n_paths 1..24, n_times 1..3, optimiser default/class/instance in {SGD, Adam, Adadelta, RMSprop}, validation "
              "on/off, models lazy MLP / MLP / Linear+Dropout / LazyLinear+Dropout / recurrent+Dropout, 4 criteria, 2 hedge lists, "
              "default or given init_state, hedger left in train or eval mode beforehand. Non-trivial: k>=2 and (dropout or validation).",
         strategy=lambda tier: fit_case(), examples={"quick": 1280, "thorough": 12800}, fuzz={"thorough": 120.0}),
+    Sub("lazy_instance", check_lazy_instance,
+        rule="lazy model (lazy MLP / LazyLinear) x optimiser instance {SGD, Adam, RMSprop} constructed on the still-uninitialised parameters x "
+             "k in 1..3 x n_paths 2..24 x validation on/off x 2 hedge lists: simulated batch sizes are exactly the requested ones and the "
+             "parameters equal an explicit loop's bitwise. Non-trivial: k >= 2.",
+        strategy=lambda tier: lazy_instance_case(), examples={"quick": 160, "thorough": 1600}),
     Sub("bad_optimizer", check_bad_optimizer,
         rule="non-optimiser arguments (object, function, nn.Module class, str, None, dict) must raise TypeError and leave parameters unchanged",
         strategy=lambda tier: bad_optimizer_case(), examples={"quick": 48, "thorough": 96}),
